@@ -27,6 +27,13 @@ func init() {
 		// are legal on a send-only channel). A channel value is one pointer whatever its direction, so the
 		// send-only view is widened instead of bridging through a second channel (which would add buffering).
 		in := *(*chan int)(unsafe.Pointer(&snd))
+		// cfg presend=v1,v2,…: sent at once, before the pump has taken a step (with pre=1: under a context that is already done)
+		for _, v := range e.c.presend {
+			select {
+			case in <- v:
+			default:
+			}
+		}
 		return []chan int{in}, []outp{outInt(rcv)}
 	}
 }
